@@ -160,6 +160,19 @@ func (th Theory) AAdd(a, b Expr) Expr {
 	}
 	return IAdd(a, b)
 }
+// AIdx: address of element i of a sequence starting at base. In the int theory this is
+// the function idx (axiom: idx(b,i) = b+i) so that quantified contract clauses over
+// X[j] have a trigger in which the bound variable occurs bare.
+func (th Theory) AIdx(base, i Expr) Expr {
+	if th.bv {
+		return mk("bvadd", BV(64), base, i)
+	}
+	if n, ok := litInt(i); ok && n.Sign() == 0 {
+		return base
+	}
+	return mk("idx", SInt, base, i)
+}
+
 func (th Theory) ASub(a, b Expr) Expr {
 	if th.bv {
 		return mk("bvsub", BV(64), a, b)
